@@ -33,11 +33,15 @@ func runC16(cases []string, out *bufio.Writer, _ []string) {
 		'L': {"appender.sinkL.type": "Rec", "appender.fileL.type": "File", "appender.fileL.fileDir": os.TempDir(), "appender.fileL.fileName": "verif-c16-late.log",
 			"logger.other.type": "AsyncLogger", "logger.other.tags": "_c16_*", "logger.other.appenderRef.ref": "sinkL",
 			"logger.h2.type": "AsyncLogger", "logger.h2.tags": "_c16x_*", "logger.h2.appenderRef.ref": "sinkL"}, // handle h1 is not configured: fails after Start (h2 may already be bound)
+		// a plugin's Start fails: the RollingFile logger (async) cannot create its files in a directory that does not exist
+		'M': {"appender.sinkL.type": "Rec", "logger.h1.type": "RollingFile", "logger.h1.tags": "_c16_*", "logger.h1.fileDir": "/var/tmp/verif-c16-no-such-dir/x", "logger.h1.rotation": "h",
+			"logger.h1.async": "true", "logger.h2.type": "Logger", "logger.h2.tags": "_c16x_*", "logger.h2.appenderRef.ref": "sinkL"},
 		// everything resolves, starts and binds; the very last step (property injection) fails
 		'P': {"appender.sinkL.type": "Rec", "logger.h1.type": "AsyncLogger", "logger.h1.tags": "_c16_*", "logger.h1.appenderRef.ref": "sinkL",
 			"logger.h2.type": "AsyncLogger", "logger.h2.tags": "_c16x_*", "logger.h2.appenderRef.ref": "sinkL", "enableCaller": "maybe"},
 	}
 	defer os.Remove(os.TempDir() + "/verif-c16-late.log")
+	poisoned := false
 	watch := func(f func()) string {
 		done := make(chan string, 1)
 		go func() {
@@ -51,16 +55,21 @@ func runC16(cases []string, out *bufio.Writer, _ []string) {
 		case r := <-done:
 			return r
 		case <-time.After(3 * time.Second):
+			poisoned = true // a call that never returns leaves the package (and this process) beyond repair
 			return "timeout"
 		}
 	}
 	n := 0
 	for _, line := range cases {
+		if poisoned {
+			fmt.Fprintln(out, "#abandoned-after-timeout")
+			continue
+		}
 		var obs []string
 		for i := 0; i < len(line); i++ {
 			op := line[i]
 			switch op {
-			case 'A', 'B', 'E', 'L', 'P':
+			case 'A', 'B', 'E', 'L', 'P', 'M':
 				var err error
 				if r := watch(func() { err = log.Refresh(cfgs[op]) }); r != "" {
 					obs = append(obs, r)
